@@ -296,6 +296,8 @@ def native_end_to_end(seed=0):
         "two constant columns then data": np.hstack([np.full((60, 1), 7.0), np.zeros((60, 1)), base[:, :2]]),
         "duplicated column": np.hstack([base[:, :1], base[:, :1], base[:, 1:]]),
         "integer-valued table": np.round(base).astype(float),
+        # a two-valued (indicator) column that separates the clusters: a split on it is still the rule `x <= threshold`
+        "informative 0/1 indicator column": np.column_stack([(np.arange(60) % 2 == 0).astype(float) * 5.0, 0.01 * base[:, 0], 0.01 * base[:, 1]]),
     }
     awkward = ["$x_{1}$", "{a, b}", "100%s", "r.*(x)", "{0}", "name with spaces", "x\\d", "{{k}}"]
     for tag, X in cases.items():
